@@ -468,3 +468,44 @@ impl Ctx {
         }
     }
 }
+
+/// The same JSON document with the members of every object in another order
+/// (mode 0: sorted by key, 1: reverse sorted, 2: rotated by one): what a key-sorted
+/// document model, a BTreeMap or a canonicalising re-encoder hands to a Deserialize
+/// impl. Field order carries no meaning in a self-describing map.
+pub fn reorder_json(text: &str, mode: u8) -> String {
+    fn emit(v: &Value, mode: u8, out: &mut String) {
+        match v {
+            Value::Object(m) => {
+                let mut keys: Vec<&String> = m.keys().collect();
+                keys.sort();
+                match mode % 3 {
+                    1 => keys.reverse(),
+                    2 => if keys.len() > 1 { keys.rotate_left(1) },
+                    _ => {}
+                }
+                out.push('{');
+                for (i, k) in keys.iter().enumerate() {
+                    if i > 0 { out.push(','); }
+                    out.push_str(&serde_json::to_string(k).unwrap());
+                    out.push(':');
+                    emit(&m[*k], mode, out);
+                }
+                out.push('}');
+            }
+            Value::Array(a) => {
+                out.push('[');
+                for (i, x) in a.iter().enumerate() {
+                    if i > 0 { out.push(','); }
+                    emit(x, mode, out);
+                }
+                out.push(']');
+            }
+            other => out.push_str(&serde_json::to_string(other).unwrap()),
+        }
+    }
+    let v: Value = serde_json::from_str(text).expect("reorder_json: parse");
+    let mut out = String::with_capacity(text.len());
+    emit(&v, mode, &mut out);
+    out
+}
